@@ -95,17 +95,17 @@ def main(argv):
     crashed = [r for r in results if r['error'] and r['error'].startswith('CRASH')]
     untranslated = [r for r in results if r['error'] and not r['error'].startswith('CRASH')]
     # ---- solve
-    items, meta = [], {}
+    from pyvc.solve import solve_groups
+    meta, solved, groups = {}, {}, []
     for r in results:
         if r['error']:
             continue
         for (oname, kind, text, info) in r['obligations']:
-            items.append((oname, text))
             meta[oname] = (r['name'], kind, info)
-    normal = [(n, t) for n, t in items if not meta[n][1].startswith('known-full')]
-    kfull = [(n, t) for n, t in items if meta[n][1].startswith('known-full')]
-    solved = solve_all(normal, timeout_ms=timeout_ms, second=True)
-    solved.update(solve_all(kfull, timeout_ms=3000, second=False))
+            if text is None:
+                solved[oname] = ('unsat', 'trivial', 0.0, '')
+        groups += r['groups']
+    solved.update(solve_groups(groups, timeout_ms=timeout_ms, second=True, short=('known-full',)))
 
     # ---- classify
     violations, undecided, kf_lines = [], [], []
